@@ -133,7 +133,10 @@ class ScoreBetween(Stream):
             pts, total = cut_points(rng, sc)
             a = rng.choice([p for p in pts if p < total] or [F(0)])
             b = rng.choice([p for p in pts if p > a] or [a + 1])
-            yield {"score": sc, "a": a, "b": b, "t": rng.choice([p for p in pts if 0 < p < total] or [total / 2])}
+            t = rng.choice([p for p in pts if 0 < p < total] or [total / 2])
+            if i % 11 == 3:
+                t = rng.choice([F(0), total])              # "at any time t": the first and the last boundary (one piece is the empty window)
+            yield {"score": sc, "a": a, "b": b, "t": t}
 
     def equal_parts(self, score):
         return all(len({sum(F(n["dur"]) for n in notes) for _, notes in c["parts"]}) <= 1 for c in score)
@@ -149,11 +152,21 @@ class ScoreBetween(Stream):
                 out["wsound"] = {} if w is None else sounding_list(w)
                 total = F(sc.duration)
                 left, right = sc.get_score_between(0, t), sc.get_score_between(t, total)
-                if left is not None and right is not None:
-                    joined = left + right
+                joined = right if left is None else (left if right is None else left + right)    # None is the library's empty window
+                if joined is not None:
                     out["joined"] = sounding_list(joined)
                     out["joined_dur"] = F(joined.duration)
+                elif total > 0:
+                    out["joined"], out["joined_dur"] = {}, F(0)           # both pieces empty
                 out["total"] = total
+                # the pieces are the caller's: emptying them in place (chord.score[part] = melody) leaves the score they were cut from
+                # as it was - cutting it again gives the same sound
+                from musiclang import Melody, Silence
+                for piece in (w, left, right):
+                    for ch in (piece.chords if piece is not None else []):
+                        for nm in list(ch.score.keys()):
+                            ch.score[nm] = Melody([Silence(F(ch.score[nm].duration))])
+                out["sound_after"] = sounding_list(sc)
             return out
         return mlang.guarded(f)
 
@@ -187,6 +200,8 @@ class ScoreBetween(Stream):
                         return {"sig": "window-content:zero-length-note-at-chord-end",
                                 "msg": f"part {nm} in [{a},{b}): the zero-length note(s) {missing} ending the chord that stops at {a} are lost"}
                     return {"sig": "window-content", "msg": f"part {nm} in [{a},{b}): {got.get(nm)} expected {want[nm]}"}
+        if r.get("sound_after") is not None and r["sound_after"] != r["sound"]:
+            return {"sig": "window-shares-objects-with-the-score", "msg": f"after emptying the extracted pieces in place the score itself sounds {str(r['sound_after'])[:200]}"}
         if "joined" in r:
             if r["joined_dur"] != total:
                 return {"sig": "rejoin-duration", "msg": f"cut at {case['t']}: {r['joined_dur']} vs {total}"}
@@ -284,7 +299,7 @@ class RepeatUntil(Stream):
     def gen(self, rng, n):
         for _ in range(n):
             sc = sg.equalize(sg.rand_score(rng, max_chords=3, rel=0.0, accs=False))
-            yield {"score": sc, "d": rng.choice([F(1, 2), F(1), F(3), F(7, 2), F(10, 3), F(8), F(13), F(17, 4)])}
+            yield {"score": sc, "d": rng.choice([F(1, 2), F(1), F(3), F(7, 2), F(10, 3), F(8), F(13), F(17, 4), F(0)])}
 
     def impl(self, case):
         def f():
@@ -304,7 +319,7 @@ class RepeatUntil(Stream):
     def spec(self, case, r):
         if mlang.is_exc(r):
             return {"sig": "repeat-until-raises", "msg": str(r)} if sg.total_dur(case["score"]) > 0 else None
-        if r["dur"] != F(case["d"]):
+        if (r["dur"] if r["dur"] is not None else F(0)) != F(case["d"]):       # None is the library's empty score
             return {"sig": "repeat-until-duration", "msg": f"asked {case['d']}, got {r['dur']}"}
         return None
 
